@@ -60,6 +60,53 @@ Definition is_full (ss : list stage) : bool :=
   && existsb (fun s => match s with SC => true | _ => false end) ss
   && match last ss with Some SR => true | _ => false end.
 
+(** C07 speaks of "any order in which each built-in's operands are available": the compiler
+    stage is in order when no operand of a compiler op still holds an unfilled parameter *)
+Fixpoint no_op (e : expr) : bool :=
+  match e with
+  | EScriptAddr _ | EMinUtxo _ | ETipSlot | ESlotToTime _ | ETimeToSlot _ => false
+  | EParamSet x => no_op x
+  | EExpectInput _ a m r _ _ => no_op a && no_op m && no_op r
+  | _ => forall_children no_op e
+  end.
+(** a compiler op inside a query that is still open is evaluated only when the compiler stage
+    precedes the input stage (apply_inputs replaces the whole query): such schedules are left
+    out, the outcome may rightly depend on that order *)
+Fixpoint ops_ready (e : expr) : bool :=
+  match e with
+  | EScriptAddr a | EMinUtxo a | ESlotToTime a | ETimeToSlot a =>
+    match unresolved a with [] => ops_ready a | _ => false end
+  | EParamSet x => ops_ready x
+  | EExpectInput _ a m r _ _ => no_op a && no_op m && no_op r
+  | _ => forall_children ops_ready e
+  end.
+Fixpoint before_compiler (ss : list stage) : option (list stage) :=
+  match ss with
+  | [] => None
+  | SC :: _ => Some []
+  | s :: r => option_map (cons s) (before_compiler r)
+  end.
+(** a full schedule whose compiler stage comes when every operand is available (judged on the
+    model's state at that point) *)
+Definition eligible (c : case) (ss : list stage) : bool :=
+  is_full ss &&
+  match before_compiler ss with
+  | Some pre => match run_schedule c pre (c_tx c) with
+                | Ok t1 => forallb ops_ready (tx_slots t1)
+                | _ => false
+                end
+  | None => false
+  end.
+
+(** apply_inputs discards a query wholesale, so an error inside a query (an index out of range,
+    a script address over a hash of the wrong length) shows only in the orders that evaluate
+    the query before it is replaced: the comparison of outcomes is made for templates whose
+    queries evaluate without error under the given arguments *)
+Definition query_benign (c : case) (q : query_x) : bool :=
+  forallb (fun e => is_ok (r <- visit 0 (cfg_of c) (apply_fees (c_fee c) (apply_args (c_args c) e)) ;; reduce 0 reduce_fuel r))
+          [qx_addr q; qx_min q; qx_ref q].
+Definition queries_benign (c : case) : bool := forallb (fun nq => query_benign c (snd nq)) (tx_queries (c_tx c)).
+
 Definition names_of {A} (l : list (string * A)) : list string := map fst l.
 Definition subset_s (a b : list string) : bool := forallb (fun x => bool_decide (x ∈ b)) a.
 
@@ -85,7 +132,12 @@ Definition checks (c : case) : list (N * bool) :=
     (104%N, forallb (fun p => bool_decide (snd p = expected_missing c (fst p))) (c_missing c));
     (* C07 on the implementation's results *)
     (201%N, match map tx_canon full_ok with [] => true | f :: r => forallb (tx_eqb f) r end);
-    (202%N, c_reduce_idem c) ].
+    (202%N, c_reduce_idem c);
+    (* every order in which the operands are available yields a transaction, or none does *)
+    (203%N, match (if queries_benign c then filter (fun ro => eligible c (ro_schedule ro)) (c_runs c) else []) with
+            | [] => true
+            | r0 :: rest => forallb (fun r => Bool.eqb (ro_kind r =? 0)%N (ro_kind r0 =? 0)%N) rest
+            end) ].
 
 Definition failed (c : case) : list N :=
   map fst (filter (fun x => negb (snd x)) (checks c)).
